@@ -638,6 +638,11 @@ pub fn check(spec: &'static CheckSpec, thorough: bool) -> i32 {
         reported += 1;
     }
 
+    for (k, n) in counters.iter() {
+        if k.starts_with("harness.") && *n > 0 {
+            harness_errors.push(format!("{k} happened in {n} run(s)"));
+        }
+    }
     // required probes
     let mut missing_probes = Vec::new();
     if harness_errors.is_empty() && evaluations >= total.min(200) {
